@@ -550,6 +550,26 @@ pub fn gen_project(r: &mut Rng, pf: &Profile) -> Project {
         }
         steps[k].hide_success = r.pct(8);
     }
+    // the same file named twice among a step's inputs (CMake does this): in two sections or twice in one
+    for k in 0..n {
+        if r.pct(6) {
+            let all: Vec<String> = steps[k].exp.iter().chain(&steps[k].imp).chain(&steps[k].oo).cloned().collect();
+            if all.is_empty() {
+                continue;
+            }
+            let f = all[r.below(all.len())].clone();
+            let dirtying_ok = steps[k].exp.contains(&f) || steps[k].imp.contains(&f);
+            match r.below(3) {
+                0 if !steps[k].phony && dirtying_ok => steps[k].imp.push(f),
+                1 => steps[k].oo.push(f),
+                _ if !steps[k].phony && dirtying_ok => {
+                    let pos = r.below(steps[k].imp.len() + 1);
+                    steps[k].imp.insert(pos, f)
+                }
+                _ => steps[k].oo.insert(0, f),
+            }
+        }
+    }
     // generated-header pattern: a dedicated source of step k includes an output of an
     // earlier step; k orders itself after the producer through an order-only input
     for k in 1..n {
